@@ -124,7 +124,7 @@ def draw_samples(position, H, minimizer, n_samples, mirror_samples, napprox=0,
                               H.iteration_controller)
     else:
         met = H(Linearization.make_var(sam_position, want_metric=True)).metric
-    if napprox >= 1:
+    if napprox > 1:
         met._approximation = makeOp(approximation2endo(met, napprox))
     # /Construct transformation
 
